@@ -124,7 +124,9 @@ def run(ctx):
             ctx.case(("c08-coupled", i, ccases[i]["nthreads"], ccases[i]["page"]), True)
             ctx.count("coupled:nthreads=%d page=%s" % (ccases[i]["nthreads"], ccases[i]["page"]))
         if ref.get("setup") != "accept" or "tubes" not in ref:
+            ctx.count("coupled:reference not solved (nothing to compare)")
             continue        # a receiver the coupled solver does not take (C07's business); nothing to compare
+        ctx.count("coupled:groups compared")
         for i in grp[1:]:
             r = cres[i]
             what = "coupled thermal solve with nthreads=%d page_results=%s" % (ccases[i]["nthreads"], ccases[i]["page"])
